@@ -103,27 +103,6 @@ fn find_free_fn<'a>(files: &'a [File], name: &str) -> Option<&'a ItemFn> {
     })
 }
 
-/// translate the module-level function `name` (once) and register it
-fn translate_free_fn(files: &[File], reg: &mut Registry, out: &mut String, name: &str) -> Res<FnSig> {
-    if let Some(s) = reg.fns.get(name) {
-        return Ok(s.clone());
-    }
-    let f = find_free_fn(files, name).ok_or(format!("fn {} not found", name))?;
-    let (text, sig, extra) = {
-        let mut tr = new_tr(reg, None, name);
-        let (text, sig) = tr.function(&f.sig, &f.block, name).map_err(|e| format!("fn {}: {}", name, e))?;
-        (text, sig, tr.extra_defs)
-    };
-    for d in extra {
-        out.push_str(&d);
-        out.push('\n');
-    }
-    out.push_str(&text);
-    out.push('\n');
-    reg.fns.insert(name.to_string(), sig.clone());
-    Ok(sig)
-}
-
 // ------------------------------------------------------------------------------------------------
 // region wiring
 
@@ -503,12 +482,26 @@ pub fn region_static(files: &[File], _names: &[String], reg: &mut Registry, out:
             return Err(format!("region_static: State::new arm {} is not a Region variant", w.variant));
         }
     }
-    // band-limit functions
+    // band-limit functions, one instance per region under a name derived from the `Region` variant
+    // (the Rust function's own name is an implementation detail theorems should not mention)
     for w in &wiring {
-        let sig = translate_free_fn(files, reg, out, &w.freq_fn)?;
+        let f = find_free_fn(files, &w.freq_fn).ok_or(format!("region_static: fn {} not found", w.freq_fn))?;
+        let lean = format!("{}.frequency_valid", w.variant);
+        let (text, sig, extra) = {
+            let mut tr = new_tr(reg, None, &lean);
+            let (text, sig) = tr.function(&f.sig, &f.block, &lean).map_err(|e| format!("fn {}: {}", w.freq_fn, e))?;
+            (text, sig, tr.extra_defs)
+        };
         if sig.fallible || sig.ret != Ty::Bool || sig.params.len() != 1 || !matches!(sig.params[0].1, Ty::Int("u32")) {
             return Err(format!("region_static: {} is not a total fn(u32) -> bool", w.freq_fn));
         }
+        for d in extra {
+            out.push_str(&d);
+            out.push('\n');
+        }
+        writeln!(out, "/-- `{}` (the function `{}::{}()` hands to the plan constructor) -/", w.freq_fn, w.plan_ty, if w.fixed { "default" } else { "new_.." }).unwrap();
+        out.push_str(&text);
+        out.push('\n');
     }
     // region types
     let mut rtypes: Vec<(String, RegionTy)> = vec![];
@@ -549,7 +542,7 @@ pub fn region_static(files: &[File], _names: &[String], reg: &mut Registry, out:
     writeln!(out, "/-- `State::new`: the band-limit function the region's plan is constructed with (`frequency_valid` calls it) -/").unwrap();
     writeln!(out, "def frequency_valid : Region → Int → Bool").unwrap();
     for w in &wiring {
-        writeln!(out, "  | .{}, f => {} f", w.variant, w.freq_fn).unwrap();
+        writeln!(out, "  | .{}, f => {}.frequency_valid f", w.variant, w.variant).unwrap();
     }
     writeln!(out).unwrap();
     // associated constants: the union of names, in order of first appearance
